@@ -232,10 +232,13 @@ class CachedStore(Entity):
             key: The key to invalidate.
         """
         if key in self._cache:
+            self._write_back_if_dirty(key)
             self._cache_remove(key)
 
     def invalidate_all(self) -> None:
         """Clear the entire cache."""
+        for key in sorted(self._dirty_keys):
+            self._write_back_if_dirty(key)
         self._cache.clear()
         self._dirty_keys.clear()
         self._eviction_policy.clear()
@@ -256,8 +259,11 @@ class CachedStore(Entity):
         # per-process string hash seed and would make the write order irreproducible.
         for key in sorted(self._dirty_keys):
             if key in self._cache:
-                yield from self._backing_store.put(key, self._cache[key])
-                self._dirty_keys.discard(key)
+                value = self._cache[key]
+                yield from self._backing_store.put(key, value)
+                # Keep the key dirty if it was rewritten while the write was in flight
+                if key not in self._cache or self._cache[key] is value:
+                    self._dirty_keys.discard(key)
                 self._writebacks += 1
                 flushed += 1
         return flushed
@@ -270,6 +276,7 @@ class CachedStore(Entity):
                 evict_key = self._eviction_policy.evict()
                 if evict_key is None:
                     break
+                self._write_back_if_dirty(evict_key)
                 self._cache.pop(evict_key, None)
                 self._dirty_keys.discard(evict_key)
                 self._evictions += 1
@@ -279,6 +286,13 @@ class CachedStore(Entity):
             self._eviction_policy.on_access(key)
 
         self._cache[key] = value
+
+    def _write_back_if_dirty(self, key: str) -> None:
+        """Write a dirty entry to the backing store before it leaves the cache."""
+        if key in self._dirty_keys and key in self._cache:
+            self._backing_store.put_sync(key, self._cache[key])
+            self._dirty_keys.discard(key)
+            self._writebacks += 1
 
     def _cache_remove(self, key: str) -> None:
         """Remove an entry from cache."""
